@@ -42,7 +42,25 @@ def directed(rng: random.Random) -> dict:
             {"k": "label", "n": "after2"}, {"k": "data", "d": "dl", "es": [E("after2"), E("after1")]}]
     outer = rng.choice([0x10, 0xFF, 0x100, 0x1234, 0x12345])
     kind = rng.choice(["const_then_inner_label", "const_then_inner_sym", "const_then_inner_const", "param_then_label", "loopvar_then_sym",
-                       "agreeing_shadow", "backward_label", "const_plain"])
+                       "agreeing_shadow", "backward_label", "const_plain", "text_before_inner_table", "big_incbin"])
+    if kind == "text_before_inner_table":
+        t1 = [["41", "a"], ["42", "b"], ["43", "c"]]
+        t2 = [["0141", "a"], ["0242", "b"], ["030303", "c"], ["04", "ab"]]
+        wrap = rng.choice(["block", "scope", "macro", "for"])
+        inner = [{"k": "text", "t": rng.choice(["abc", "abcab", "cab"])}, {"k": "label", "n": "mid1"}, {"k": "table", "f": "wide.tbl"}, {"k": "text", "t": "abc"},
+                 {"k": "label", "n": "mid2"}, {"k": "data", "d": "dl", "es": [E("mid1"), E("mid2")]}]
+        st = {"block": {"k": "block", "b": inner}, "scope": {"k": "scope", "n": "menu", "b": inner},
+              "macro": {"k": "macro", "n": "mtxt", "ps": [], "b": inner}, "for": {"k": "for", "v": "itT", "a": E(0), "b": E(2), "body": inner}}[wrap]
+        body = [{"k": "org", "e": E(start)}, {"k": "table", "f": "narrow.tbl"}, {"k": "text", "t": "ab"}, st] + ([{"k": "call", "n": "mtxt", "as": []}] * 2 if wrap == "macro" else []) + \
+               [{"k": "text", "t": "ca"}] + tail
+        return {"prog": body, "files": {}, "tables": {"narrow.tbl": t1, "wide.tbl": t2}, "rom": "low", "family": "directed:" + kind}
+    if kind == "big_incbin":
+        rom = rng.choice(["low", "high"])
+        n = rng.choice([0x8000, 0x8001, 0x12000, 0x21000]) if rom == "low" else rng.choice([0x10000, 0x10001, 0x21000])
+        at = rng.choice([0x028000, 0x02FFF0]) if rom == "low" else rng.choice([0xC08000, 0xC0FFF0])
+        body = [{"k": "org", "e": E(at)}, {"k": "data", "d": "db", "es": [E(1)]}, {"k": "incbin", "f": "blob.bin"}] + tail + [{"k": "incbin", "f": "tail.bin"}, {"k": "label", "n": "after3"},
+                {"k": "data", "d": "dl", "es": [E("blob_bin"), E("tail_bin"), E("after3")]}]
+        return {"prog": body, "files": {"blob.bin": (rng.randbytes(1009) * (n // 1009 + 1))[:n], "tail.bin": b"xyz"}, "tables": {}, "rom": rom, "family": "directed:" + kind}
     if kind == "const_then_inner_label":
         body += [{"k": "assign", "n": "foo", "e": E(outer)}, {"k": "block", "b": [ref("foo"), {"k": "label", "n": "foo"}]}] + tail
     elif kind == "const_then_inner_sym":
